@@ -111,6 +111,25 @@ CHECKS.update({
         note='addresses BASE + x*0x1000; stand-alone shared-cache records outside launch windows not generated',
         design='5/C15'),
 })
+CHECKS.update({
+    'C12': dict(
+        technique='TLC model checking of Pipeline_MC (KeventsExact on every dump x filter configuration); recorded '
+                  'kevents / log listings of seeded v2 and v3 dumps validated against Pipeline!ReqKevents / ReqLogs in TLC',
+        text='The filter semantics (class = top byte, subclass = top 16 bits, disjunction, empty lists = no filter) is '
+             'model-checked on the design and every recorded listing must be the exact subsequence the spec selects.',
+        note='event identity by unique timestamps; filter values from small sets incl. absent / duplicated / overlapping',
+        design='5/C12'),
+    'C13': dict(
+        technique='TLC model checking of Pipeline_MC (mechanism with helper classes == reference selection from the '
+                  'unfiltered run, repeat-same, settings kept, callstack repeat; four negative controls = the designs '
+                  'of the pinned tree); request histories on one PyKdebugParser recorded and validated against '
+                  'Pipeline!RefTraces / CsFold in TLC; trace text compared with the unfiltered run of the code',
+        text='TLC finds the design-level counterexamples of the pinned tree (thread pre-filter, missing PERF helper, '
+             'mutated caller list, image residue) and proves the repaired mechanism equal to the property inside the '
+             'bounds; the code is bound by validating real request histories.',
+        note='BSD subclass filters only (statement scope); trace identity = (completing event, first event)',
+        design='5/C13'),
+})
 PENDING = {}
 
 ALL = ['C%02d' % i for i in range(1, 21)]
